@@ -28,7 +28,10 @@ IntDigits(T, radix, s, n, i, neg, acc, nd, lim, partial) ==
         IF nd = 0 THEN [k |-> "err", code |-> "Empty", idx |-> i - 1]
         ELSE [k |-> "ok", mag |-> acc, n |-> n]
     ELSE IF ~IsDigit(s[i], radix) THEN
-        IF nd = 0 THEN [k |-> "err", code |-> IF partial THEN "Empty" ELSE "EmptyOrInvalid", idx |-> i - 1]
+        (* no digit at all, then a non-digit byte.  Complete: "Empty when no digit follows the optional sign" and  *)
+        (* "InvalidDigit at the first byte that is not a digit" both describe it.  Partial: the property only      *)
+        (* says the parser stops there; upstream's own tests pin Ok((0, 0)) for unsigned "-12345" -- unspecified.  *)
+        IF nd = 0 THEN (IF partial THEN [k |-> "uns"] ELSE [k |-> "err", code |-> "EmptyOrInvalid", idx |-> i - 1])
         ELSE IF partial THEN [k |-> "ok", mag |-> acc, n |-> i - 1]
         ELSE [k |-> "err", code |-> "InvalidDigit", idx |-> i - 1]
     ELSE LET a2 == MulAddSmall(acc, radix, DigitVal(s[i]))
